@@ -362,5 +362,30 @@ theorem roundtrip_state (c : SrrConfig) (hs : c.scantime ≠ 0) (ho : c.offs ≠
     rw [hw, hl, hoff]
 
 
+
+/-- the offset pair used for layer `i` by `subpixel_offset` -/
+theorem effOffsets_ne_nil (offs : List (Nat × Nat)) (h : offs ≠ []) : effOffsets offs ≠ [] := by
+  cases offs with
+  | nil => exact absurd rfl h
+  | cons o os => simp only [effOffsets]; split <;> simp
+
+theorem region_general (eff : List (Nat × Nat)) (h : eff ≠ []) (R C p0 p1 i : Nat) :
+    let st := eff.getD (i % eff.length) (0, 0)
+    region eff (maxList (eff.map (·.1))) (maxList (eff.map (·.2)))
+        (R * p0 + maxList (eff.map (·.1))) (C * p1 + maxList (eff.map (·.2))) i
+      = ((st.1, st.1 + R * p0), (st.2, st.2 + C * p1)) := by
+  intro st
+  have hlen : 0 < eff.length := List.length_pos_iff.mpr h
+  have hi : i % eff.length < eff.length := Nat.mod_lt _ hlen
+  have hst : st = eff[i % eff.length] := getD_of_lt _ _ _ hi
+  have hmem : st ∈ eff := by rw [hst]; exact List.getElem_mem hi
+  have h1 : st.1 ≤ maxList (eff.map (·.1)) := le_maxList _ _ (List.mem_map.mpr ⟨st, hmem, rfl⟩)
+  have h2 : st.2 ≤ maxList (eff.map (·.2)) := le_maxList _ _ (List.mem_map.mpr ⟨st, hmem, rfl⟩)
+  unfold region
+  simp only
+  rw [sliceBounds_region _ _ _ h1 (by omega), sliceBounds_region _ _ _ h2 (by omega)]
+  congr 2 <;> omega
+
+
 end Srr
 end Pew
